@@ -103,8 +103,11 @@ class HeartbeatUnit(Unit):
         sent = client.f['sent']
         O = ex.oblige
         if shape == 'heartbeat':
+            ex.call_closure(closure(LINEAGE, 'OpenFilterLineage.emit_start'), [me, {'cfg': 1}], {})      # the thread is only ever started for a started run
+            n_start = len(sent)
+
             def inv(ex_, env):
-                return [('C18.heartbeat: while the heartbeat loop runs only RUNNING events were emitted by it', all(e.f['eventType'] == 'RUNNING' for e in sent))]
+                return [('C18.heartbeat: while the heartbeat loop runs only RUNNING events were emitted by it', all(e.f['eventType'] == 'RUNNING' for e in sent[n_start:]))]
             loops = [n for n in ast.walk(extract.load(LINEAGE).find('OpenFilterLineage._heartbeat_loop')) if isinstance(n, ast.While)]
             # ghost log client.sent: append-only; the loop invariant constrains EVERY entry (all RUNNING), which is all the exit obligation uses of earlier iterations
             ex.loop_specs[ex.loop_key(loops[0])] = TrivialLoop(inv, None, heap_keeps=(('olclient', 'sent'),))
@@ -115,7 +118,7 @@ class HeartbeatUnit(Unit):
                 return ex
             ex.outcome = 'return'
             ex.cover('heartbeat ended')
-            kinds = [e.f['eventType'] for e in sent]
+            kinds = [e.f['eventType'] for e in sent[n_start:]]
             O('C18.heartbeat: the heartbeat thread ends with exactly one COMPLETE, after RUNNING*', kinds.count('COMPLETE') == 1 and kinds[-1] == 'COMPLETE' and all(k == 'RUNNING' for k in kinds[:-1]))
             O('C18.heartbeat: it ends only after the stop event was set', me.f['_stop_event'].f['isset'] is True)
         elif shape.startswith('after_end'):
@@ -151,12 +154,22 @@ class HeartbeatUnit(Unit):
             O('C18.run_id: all events of a run on a reused emitter carry ONE run id (START included)', len(sent) == 3 and all(e.f['run'].f['runId'] is sent[0].f['run'].f['runId'] for e in sent))
             return ex
         else:
-            args = [{'cfg': 1}] if shape == 'emit_start' else []
-            ex.call_closure(closure(LINEAGE, f'OpenFilterLineage.{shape}'), [me] + args, {})
+            want = {'emit_start': 'START', 'emit_stop': 'ABORT', 'emit_complete': 'COMPLETE'}[shape]
+            if shape != 'emit_start':
+                # never started: whatever is emitted is of the named type, at most once (an emitter that stays silent for a run that never started keeps the property)
+                ex.call_closure(closure(LINEAGE, f'OpenFilterLineage.{shape}'), [me], {})
+                O(f'C18.event_type: {shape} on an emitter that never started a run emits at most one event, and only {want}', len(sent) <= 1 and all(e.f['eventType'] == want for e in sent))
+                del sent[:]
+                ex.call_closure(closure(LINEAGE, 'OpenFilterLineage.emit_start'), [me, {'cfg': 1}], {})
+                n0 = len(sent)
+                ex.call_closure(closure(LINEAGE, f'OpenFilterLineage.{shape}'), [me], {})
+                O(f'C18.event_type: the first {shape} of a started run emits exactly one {want} event (this is what the filter relies on to close the run)',
+                  len(sent) == n0 + 1 and sent[-1].f['eventType'] == want)
+            else:
+                ex.call_closure(closure(LINEAGE, 'OpenFilterLineage.emit_start'), [me, {'cfg': 1}], {})
+                O(f'C18.event_type: {shape} emits exactly one {want} event', len(sent) == 1 and sent[0].f['eventType'] == want)
             ex.outcome = 'return'
             ex.cover('emit checked')
-            want = {'emit_start': 'START', 'emit_stop': 'ABORT', 'emit_complete': 'COMPLETE'}[shape]
-            O(f'C18.event_type: {shape} emits exactly one {want} event', len(sent) == 1 and sent[0].f['eventType'] == want)
         for e in sent:
             O('C18.run_id: every event carries the run id generated once for this emitter', e.f['run'].f['runId'] is rid)
         return ex
